@@ -12,12 +12,14 @@ namespace Fp.Block
 
 /-- closure under the primitive state operations (enough for relations that do not look at
 the oracle) -/
-structure PrimOK (R : St → St → Prop) : Prop where
+structure PrimOK0 (R : St → St → Prop) : Prop where
   refl : ∀ s, R s s
   trans : ∀ {a b c}, R a b → R b c → R a c
   get : ∀ s, R s s.get.2
   put : ∀ s x, R s (s.put x)
   ev : ∀ s e, R s (s.ev e)
+
+structure PrimOK (R : St → St → Prop) : Prop extends PrimOK0 R where
   seen : ∀ s x, R s { s with seen := x :: s.seen }
 
 section prim
@@ -46,6 +48,12 @@ theorem leafNew_prim (c : Cls) (pc : List Cls) (s : St) : R s (leafNew env c pc 
         · exact p.trans h3 (p.put _ _)
         · exact p.trans h3 (p.put _ _)
         · exact h3
+
+end prim
+
+section prim0
+variable {env : Env} {R : St → St → Prop} (p : PrimOK0 R)
+include p
 
 theorem commentNew_prim (s : St) : R s (commentNew env s).2 := by
   unfold commentNew
@@ -78,7 +86,7 @@ theorem peek_prim (s : St) :
   · rename_i it s1 heq; rw [heq] at hg; exact p.trans hg (p.put _ _)
   · rename_i s1 heq; rw [heq] at hg; exact hg
 
-end prim
+end prim0
 
 /-! ## the log only grows -/
 
@@ -112,9 +120,9 @@ theorem logExt_ok (env : Env) : RelOK env LogExt where
   put := logExt_prim.put
   ev := logExt_prim.ev
   leaf := leafNew_prim logExt_prim
-  comment := commentNew_prim logExt_prim
-  directive := directiveNew_prim logExt_prim
-  peek := peek_prim logExt_prim
+  comment := commentNew_prim logExt_prim.toPrimOK0
+  directive := directiveNew_prim logExt_prim.toPrimOK0
+  peek := peek_prim logExt_prim.toPrimOK0
   remove := fun s n => ⟨[Ev.remove n], by simp⟩
   exit := fun s n s' h => by
     obtain ⟨new, e⟩ := h
@@ -229,9 +237,9 @@ theorem scopeR_ok (env : Env) : RelOK env ScopeR where
   put := scopeR_prim.put
   ev := scopeR_prim.ev
   leaf := leafNew_prim scopeR_prim
-  comment := commentNew_prim scopeR_prim
-  directive := directiveNew_prim scopeR_prim
-  peek := peek_prim scopeR_prim
+  comment := commentNew_prim scopeR_prim.toPrimOK0
+  directive := directiveNew_prim scopeR_prim.toPrimOK0
+  peek := peek_prim scopeR_prim.toPrimOK0
   remove := fun s n => ⟨(logExt_ok env).remove s n, fun _ => St.remove_chain s n⟩
   exit := fun s n s' h => by
     refine ⟨(logExt_ok env).exit s n s' h.1, fun hl => ?_⟩
@@ -458,6 +466,68 @@ theorem guardR_ok (env : Env) (g : Item) (post : List Item) (hu : Unmatched env 
   remove := fun s n => by unfold GuardR; rw [St.remove_stream]; exact GuardS.refl _ _ _
   exit := fun s n s' h => by unfold GuardR at *; rw [St.exit_stream]; exact h
   leak := fun s n s' g' _ h => h
+  empty := fun s s' h => h
+  enter_exit_ok := trivial
+
+/-! ## the per-line parse cache: every `(item, class)` pair is parsed at most once -/
+
+/-- `seen` (the keys of all `parse_cache`s) stays duplicate-free -/
+def CacheR (s s' : St) : Prop := s.seen.Nodup → s'.seen.Nodup
+
+/-- operations that do not touch the cache keys -/
+def SameSeen (s s' : St) : Prop := s'.seen = s.seen
+
+theorem sameSeen_prim : PrimOK0 SameSeen where
+  refl := fun _ => rfl
+  trans := fun h1 h2 => by unfold SameSeen at *; rw [h2, h1]
+  get := fun _ => rfl
+  put := fun _ _ => rfl
+  ev := fun _ _ => rfl
+
+theorem SameSeen.cache {s s' : St} (h : SameSeen s s') : CacheR s s' := by
+  intro hn; unfold SameSeen at h; rw [h]; exact hn
+
+theorem cacheR_ok (env : Env) : RelOK env CacheR where
+  refl := fun _ h => h
+  trans := fun h1 h2 h => h2 (h1 h)
+  put := fun _ _ h => h
+  ev := fun _ _ h => h
+  leaf := fun c pc s => by
+    unfold CacheR leafNew
+    intro h
+    split
+    · rename_i s1 hg
+      have : s1.seen = s.seen := by unfold St.get at hg; injection hg with _ h2; rw [← h2]
+      simpa [this] using h
+    · rename_i it s1 hg
+      have hs : s1.seen = s.seen := by unfold St.get at hg; injection hg with _ h2; rw [← h2]
+      split
+      · simpa [St.put, hs] using h
+      · simp only
+        split
+        · split
+          · simpa [St.ev, hs] using h
+          · simpa [St.ev, St.put, hs] using h
+        · rename_i hc
+          have hn : ((it.id, c) :: s.seen).Nodup := by
+            refine List.nodup_cons.2 ⟨?_, h⟩
+            intro hm
+            apply hc
+            simp only [St.ev, hs]
+            exact List.elem_eq_true_of_mem hm
+          split
+          · simpa [St.ev, hs] using hn
+          · simpa [St.ev, St.put, hs] using hn
+          · simpa [St.ev, St.put, hs] using hn
+          · simpa [St.ev, hs] using hn
+  comment := fun s => (commentNew_prim sameSeen_prim s).cache
+  directive := fun s => (directiveNew_prim sameSeen_prim s).cache
+  peek := fun s => (peek_prim sameSeen_prim s).cache
+  remove := fun s n => by
+    unfold CacheR St.remove; intro h; split <;> exact h
+  exit := fun s n s' h => by
+    unfold CacheR St.exit at *; intro h0; split <;> exact h h0
+  leak := fun s n s' g _ h => h
   empty := fun s s' h => h
   enter_exit_ok := trivial
 
